@@ -28,6 +28,7 @@ type PeerItem struct {
 // synchronously before returning a *CloseError; a read that is blocked (or issued) after a
 // local Close returns an error wrapping net.ErrClosed; writes after Close fail.
 type ExtConn struct {
+	DeadlineErr error // what SetReadDeadline / SetWriteDeadline return (ws.NewConnection fails on it after a successful dial)
 	ext.Conn
 	mu           sync.Mutex
 	closeHandler func(code int, text string) error
@@ -80,8 +81,8 @@ func (c *ExtConn) log(ev string) {
 func (c *ExtConn) SetCloseHandler(h func(code int, text string) error) { c.closeHandler = h }
 func (c *ExtConn) SetPingHandler(h func(appData string) error)         {}
 func (c *ExtConn) SetPongHandler(h func(appData string) error)         {}
-func (c *ExtConn) SetReadDeadline(t time.Time) error                   { return nil }
-func (c *ExtConn) SetWriteDeadline(t time.Time) error                  { return nil }
+func (c *ExtConn) SetReadDeadline(t time.Time) error                   { return c.DeadlineErr }
+func (c *ExtConn) SetWriteDeadline(t time.Time) error                  { return c.DeadlineErr }
 
 func (c *ExtConn) closedErr() error { return &net.OpError{Op: "read", Net: "fake", Err: net.ErrClosed} }
 
